@@ -106,6 +106,11 @@ TNext ==
               \* the printed form of a value of kind e.kind under the calculator's current format settings (C07)
               /\ LET allowed == Printed(e.kind, e.v, FormatOf(e), e.deco) IN Judge(e.out \in allowed, <<[k |-> "format", allowed |-> allowed]>>)
               /\ last' = [call |-> "format"] /\ UNCHANGED <<calc, sess, run, today>>
+         [] e.ev = "set_dec" -> SetDecimalSep(e.v) /\ bad' = bad
+         [] e.ev = "set_tho" -> SetThousandSep(e.v) /\ bad' = bad
+         [] e.ev = "set_num" -> SetNumberCfg([d |-> e.d, remove |-> e.remove, round |-> e.round]) /\ bad' = bad
+         [] e.ev = "set_pct" -> SetPercentCfg([d |-> e.d, remove |-> e.remove, round |-> e.round]) /\ bad' = bad
+         [] e.ev = "set_mon" -> SetMoneyCfg([remove |-> e.remove, round |-> e.round]) /\ bad' = bad
          [] e.ev = "session_new" -> NewSession(e.s) /\ bad' = bad
          [] e.ev = "set_language" -> SetLanguage(e.s, e.lang) /\ bad' = bad
          [] e.ev = "set_text" -> SetText(e.s, e.lines) /\ bad' = bad
